@@ -82,6 +82,10 @@ pub struct SorterCfg {
     pub index_levels: Option<u8>,
     /// 0 = CursorVec, 1 = TempFileChunk, 2 = tracked in-memory chunks (instrumented)
     pub creator: u8,
+    /// apply the settings on the builder BEFORE `.chunk_creator(..)` replaces the creator type
+    /// (the builder is rebuilt by that call and must carry every setting over)
+    #[serde(default)]
+    pub settings_first: bool,
 }
 
 impl SorterCfg {
@@ -99,7 +103,21 @@ impl SorterCfg {
             interval: None,
             index_levels: None,
             creator: 0,
+            settings_first: false,
         }
+    }
+}
+
+/// Builds the configured builder over the given creator, in the order the configuration asks for.
+pub fn builder_with<CC: ChunkCreator>(cfg: &SorterCfg, creator: CC) -> SorterBuilder<Concat, CC> {
+    if cfg.settings_first {
+        let mut b0 = SorterBuilder::new(Concat);
+        configure(cfg, &mut b0);
+        b0.chunk_creator(creator)
+    } else {
+        let mut b = SorterBuilder::new(Concat).chunk_creator(creator);
+        configure(cfg, &mut b);
+        b
     }
 }
 
@@ -246,19 +264,13 @@ pub fn run_sorter(cfg: &SorterCfg, inserts: &[Entry], how: Extraction) -> Result
     let r = guarded(|| -> Result<Vec<Entry>, String> {
         match cfg.creator {
             0 => {
-                let mut b = SorterBuilder::new(Concat).chunk_creator(CursorVec);
-                configure(cfg, &mut b);
-                feed(b.build(), inserts, how)
+                feed(builder_with(cfg, CursorVec).build(), inserts, how)
             }
             1 => {
-                let mut b = SorterBuilder::new(Concat).chunk_creator(TempFileChunk);
-                configure(cfg, &mut b);
-                feed(b.build(), inserts, how)
+                feed(builder_with(cfg, TempFileChunk).build(), inserts, how)
             }
             _ => {
-                let mut b = SorterBuilder::new(Concat).chunk_creator(TrackedCreator::default());
-                configure(cfg, &mut b);
-                feed(b.build(), inserts, how)
+                feed(builder_with(cfg, TrackedCreator::default()).build(), inserts, how)
             }
         }
     });
@@ -315,9 +327,7 @@ pub fn compare_output(out: &[Entry], model: &[(Vec<u8>, Vec<Vec<u8>>)], unstable
 /// with, oldest first.
 pub fn sorter_chunk_files(cfg: &SorterCfg, inserts: &[Entry]) -> Result<Vec<Vec<u8>>, String> {
     let r = guarded(|| -> Result<Vec<Vec<u8>>, String> {
-        let mut b = SorterBuilder::new(Concat).chunk_creator(CursorVec);
-        configure(cfg, &mut b);
-        let mut sorter = b.build();
+        let mut sorter = builder_with(cfg, CursorVec).build();
         for (i, (k, v)) in inserts.iter().enumerate() {
             sorter.insert(k, v).map_err(|e| format!("insert #{i}: {e}"))?;
         }
